@@ -32,3 +32,25 @@ add("C19", "exploration",
     "reference-predicate oracle over an exhaustive request grid with a sentinel protected handler; exhaustive single-symbol cookie mutations; login grid",
     "Every combination of the two switches × password kind × 11 remote addresses × 8 cookie states × 4 methods goes through the real Authn wrapper around a sentinel handler and is compared with the 3-clause predicate of the statement; login attempts with wrong/near-miss/long passwords must never mint a session accepted later. Grid is enumerated completely; random families on top.",
     "Trusted: net/http/httptest; session cookies are minted only through real POST /login. Route-level wiring in cmd/shovel is not yet exercised (handler level only).", "DESIGN.md §7 C19")
+
+add("C06", "exploration",
+    "range/outcome monitor on every commit and on the node's request log over an exhaustive (start, stop, batch, concurrency, prior position) grid with restarts and head growth",
+    "All 1344 combinations of start kind × stop kind × batch × concurrency × prior position are run (those that are contradictory are counted as not applicable), each with steps, head growth and restarts (all in-memory state discarded): every written row/position must lie in the configured range and above the pair's first block, completion must be reported exactly once the stop block is recorded and nothing written afterwards, and every data fetch must begin at position+1 (or start / announced head when there is no position).",
+    PIPE_NOTE, "DESIGN.md §7 C06")
+
+ABI_NOTE = "Trusted: refmodel (own ABI encoder written from the Solidity ABI specification, self-tested against the specification's worked examples; own Keccak-f[1600] self-tested against x/crypto and known answers)."
+
+add("C09", "exploration",
+    "differential oracle: independent ABI encoder + expected-rows rule vs the real decoder, over generated type trees/selections/values, a catalogue of minimal shapes, decoder reuse, and the Insert path",
+    "Generated event declarations (type trees to depth 4, T[k] incl. k>=10, T[], tuples, arrays of tuples, arrays of dynamic elements, nested arrays) go through Event.ABIType() exactly as configuration JSON does; the bytes produced by the independent encoder are scanned by the real decoder (one Result reused for several inputs) and compared with rows computed from the values. Failing random cases are shrunk to a minimal declaration so that one defect has one key.",
+    ABI_NOTE, "DESIGN.md §7 C09")
+
+add("C10", "exploration",
+    "panic / pointer-range / work-bound monitor over hostile inputs: random bytes, every truncation, every 32-byte word replaced by boundary values, aliasing encodings; canary buffers",
+    "Every input is presented with cap==len and inside a larger canary buffer; every returned cell must point into the input; rows and allocated bytes must stay polynomial in the data size; panics are violations. Exhaustive word×boundary-value substitution for encodings up to 40 words.",
+    ABI_NOTE + " Wall-clock only as a watchdog (inconclusive).", "DESIGN.md §7 C10")
+
+add("C13", "exploration",
+    "own canonical-signature printer and own Keccak vs Event.Signature/SignatureHash; known-answer vectors; log matching through Integration.Insert with a recording connection",
+    "Generated names × type trees × indexed layouts; 16 known-answer hashes; matching logs must yield rows, logs with the same hash and any other topic count, other hashes, or no topics must yield none and never panic.",
+    ABI_NOTE, "DESIGN.md §7 C13")
